@@ -247,7 +247,8 @@ PROPS = {
     },
     'C14': {
         'id': 'C14', 'area': 'cvt',
-        'theorems': ['Props.C14_input_numbered', 'Props.C14_select', 'Props.C14_select_sorted', 'Props.C14_each_once'],
+        'theorems': ['Props.C14_input_numbered', 'Props.C14_select', 'Props.C14_select_sorted', 'Props.C14_each_once',
+                     'Props.C14_files_of_a_group_order_free_partial', 'Props.C14_streams_order_free_partial'],
         'n_quick': 400, 'n_thorough': 12000, 'env': {'VERIF_JOBS': '16'},
     },
     'C05': {
